@@ -11,6 +11,10 @@ def jonesF : Rd (Jones Float) := do let a ← cxF; let b ← cxF; let c ← cxF;
 def flatQF (q : Quat Float) : List String := q.toList.map hexOfFloat
 def flatCF (z : Cx Float) : List String := [hexOfFloat z.re, hexOfFloat z.im]
 
+def readFloats : Nat → Rd (List Float)
+  | 0 => pure []
+  | k+1 => do let x ← hexFloat; let r ← readFloats k; pure (x :: r)
+
 def opsEigRat : List (String × OpFn) := [
   ("q.sqrt", do let h ← quat; let r ← liftR (Quat.sqrtH ratSqrt ordRat h); pure (flat r)),
   ("j.polar", do let j ← jones; let (d, h, u) ← liftR (polar cxSqrt ratSqrt ordRat j); pure (flat d ++ flat h ++ flat u)),
@@ -36,10 +40,7 @@ def opsEigFloat : List (String × Rd (List String)) := [
       pure [hexOfFloat r.s, hexOfFloat r.tau, hexOfFloat r.correction]),
   ("jac.real", do
       let n ← nat
-      let rec readN : Nat → Rd (List Float)
-        | 0 => pure []
-        | k+1 => do let x ← hexFloat; let r ← readN k; pure (x :: r)
-      let vals ← readN (n*(n+1)/2)
+      let vals ← readFloats (n*(n+1)/2)
       -- upper triangle, row by row
       let idx (i j : Nat) : Nat := let (i, j) := if i ≤ j then (i, j) else (j, i); i*n - i*(i-1)/2 + (j - i)
       let arr := vals.toArray
@@ -48,6 +49,21 @@ def opsEigFloat : List (String × Rd (List String)) := [
       let fa := Mat.freeze a
       let st := Jacobi.jacobi L (Mat.thaw fa)
       pure ((Vec.toList st.d).map hexOfFloat ++ (Mat.toList st.v).map hexOfFloat)),
+  ("jac.complex", do
+      let n ← nat
+      -- per row i: the real diagonal element, then (re, im) of the elements right of it
+      let vals ← readFloats (n*n)
+      let arr := vals.toArray
+      let rowStart (i : Nat) : Nat := i*(2*n - i)        -- Σ_{r<i} (1 + 2(n-1-r))
+      let a : Mat n n (Cx Float) := fun i j =>
+        if i.val = j.val then ⟨arr.getD (rowStart i.val) 0, 0⟩
+        else if i.val < j.val then ⟨arr.getD (rowStart i.val + 1 + 2*(j.val - i.val - 1)) 0, arr.getD (rowStart i.val + 2 + 2*(j.val - i.val - 1)) 0⟩
+        else ⟨arr.getD (rowStart j.val + 1 + 2*(i.val - j.val - 1)) 0, -(arr.getD (rowStart j.val + 2 + 2*(i.val - j.val - 1)) 0)⟩
+      let L : Jacobi.SolverLeaves Float := ⟨Float.abs, Float.sqrt, (fun a b => a == b), (fun x => x < 0), (fun a b => a > b), 100.0, 0.2⟩
+      let fa := Mat.freeze a
+      match Jacobi.jacobiC L fsqrt (Mat.thaw fa) with
+      | .ok st => pure ((Vec.toList st.d).map hexOfFloat ++ (Mat.toList st.v).flatMap flatCF)
+      | .error e => throw e),
   ("jac.complex2", do
       let p ← hexFloat; let q ← hexFloat; let pq ← cxF
       match Jacobi.calculateComplex fsqrt (fun x => x < 0) p q pq with
